@@ -129,6 +129,18 @@ Section Envelope.
     end.
 End Envelope.
 
+(** message context through the envelope (envelope.go: wrappedMsg.SetContext(msg.Context()) and
+    watermillMessage.SetContext(msg.Context())); a context is an opaque identity *)
+Section EnvelopeCtx.
+  Variable jenc : envelope -> option (list N).
+  Variable jdec : list N -> option envelope.
+  Variable nu : str.
+  Definition wrap_c (dest : str) (mc : msg * N) : res (msg * N) :=
+    match wrap jenc nu dest (fst mc) with Ok w => Ok (w, snd mc) | Err e => Err e end.
+  Definition unwrap_c (wc : msg * N) : res (str * (msg * N)) :=
+    match unwrap jdec (fst wc) with Ok (d, m) => Ok (d, (m, snd wc)) | Err e => Err e end.
+End EnvelopeCtx.
+
 (** * CQRS marshalers.  One Go type at a time: [V] are its values. *)
 Definition key_name : str := [110;97;109;101]%N.   (* "name" *)
 
